@@ -231,7 +231,7 @@ pub(super) fn merge_create_node(
         UNLABELED_LABEL_ID
     };
 
-    let iid = txn.create_node(external_id, label_id)?;
+    let iid = txn.create_node_auto_id(external_id, label_id)?;
     for extra_label in node_pat.labels.iter().skip(1) {
         let extra_label_id = txn.get_or_create_label_id(extra_label)?;
         txn.add_node_label(iid, extra_label_id)?;
